@@ -100,7 +100,7 @@ struct IsoWorld {
       subs[obs->id] = std::vector<std::string>(); subs[B.insp->GetSessionID()] = std::vector<std::string>();
       ignore.insert(att->id);
       B.Settle();
-      B.insp->Snapshot(before);
+      if (!B.insp->Snapshot(before)) Abort("inspector not attached during setup");
       for (size_t i = 0; i < victims.size(); i++) { Client * v = victims[i]; p0[v] = B.ParamSnap(v); nodes0[v] = CountUnder(before, v->root, false); gotMark[v] = v->got.size(); }
       ix1 = before[v1->root + "/idx"].index; ix2 = before[v2->root + "/idx"].index;
       if (nodes0[v1] < 7 || ix1.size() != 3 || ix2.size() != 3) Abort("victim state was not built (expected >= 7 nodes and a 3-entry index)");
@@ -116,7 +116,7 @@ struct IsoWorld {
    {
       if (bad) return;
       B.Settle(); vh::stat("snapshots");
-      TreeSnap after; B.insp->Snapshot(after);
+      TreeSnap after; if (!B.insp->Snapshot(after)) { Fail("victim_disconnected", "the inspector session (a silent session without a socket) was detached from the server"); return; }
       for (size_t i = 0; i < victims.size(); i++) if (!victims[i]->alive || !B.SessionAttached(victims[i]->id)) { Fail("victim_disconnected", "session " + victims[i]->root + " is no longer attached / its connection was closed by the server"); return; }
       if (B.NumSessions() != nSess - (B.SessionAttached(att->id) ? 0 : 1)) { Fail("session_count", vh::fmt("server has %u sessions, expected %u", B.NumSessions(), nSess)); return; }
       std::vector<std::string> d = DiffSnap(before, after, att->root, att->id);
@@ -145,7 +145,8 @@ struct IsoWorld {
    {
       if (bad) return;
       MessageRef rd = GetMessageFromPool(PR_COMMAND_REMOVEDATA); (void)rd()->AddString(PR_NAME_KEYS, ("idx/" + ix2[1]).c_str()); v2->Send(rd); B.Settle();
-      TreeSnap after; B.insp->Snapshot(after); std::vector<std::string> d = DiffSnap(before, after, att->root, att->id);
+      TreeSnap after; if (!B.insp->Snapshot(after)) { Fail("victim_disconnected", "the inspector session was detached from the server"); return; }
+      std::vector<std::string> d = DiffSnap(before, after, att->root, att->id);
       if (d.empty()) Abort("oracle self-test: a victim removed an entry from its own index and the snapshot comparison stayed silent");
       const std::string e1 = "node changed(index): " + v2->root + "/idx", e2 = "node removed: " + v2->root + "/idx/" + ix2[1];
       if (d.size() == 2 && std::find(d.begin(), d.end(), e1) != d.end() && std::find(d.begin(), d.end(), e2) != d.end()) vh::stat("selftest_oracle_fired");
@@ -286,7 +287,7 @@ static bool RunCut(const StreamSpec & S, size_t cut, int closeStyle, const std::
       w->Send(sp); subs[w->id] = ws.subs;
    }
    B.Settle();
-   TreeSnap s0; B.insp->Snapshot(s0); std::vector<std::string> p0; for (size_t i = 0; i < wit.size(); i++) p0.push_back(B.ParamSnap(wit[i]));
+   TreeSnap s0; if (!B.insp->Snapshot(s0)) Abort("inspector not attached during setup"); std::vector<std::string> p0; for (size_t i = 0; i < wit.size(); i++) p0.push_back(B.ParamSnap(wit[i]));
    const uint32 nSess0 = B.NumSessions();
    { std::string inv = CheckSubscriberInvariant(s0, subs); if (!inv.empty()) CUTFAIL("precut_subscriber_table", "before the leaver joined: " + inv); }
    if (doStats) for (size_t i = 0; i < wit.size(); i++) CheckFreshIndexNames(s0, wit[i]->root + "/idx", "witness");
@@ -297,7 +298,7 @@ static bool RunCut(const StreamSpec & S, size_t cut, int closeStyle, const std::
    B.Settle();
    if (off != cut) { if (B.SessionAttached(L->id)) Abort("could not write the prefix although the session is attached"); CUTFAIL("session_dropped_before_cut", vh::fmt("the server dropped the leaver after %zu bytes of a well-formed stream", off)); }
    size_t complete = 0; while (complete + 1 < S.starts.size() && S.starts[complete + 1] <= cut) complete++;
-   TreeSnap pre; B.insp->Snapshot(pre);
+   TreeSnap pre; if (!B.insp->Snapshot(pre)) { CUTFAIL("inspector_detached", "the leaver's commands detached the inspector session"); return false; }
    // self-test of the trace oracle: before the cut the leaver's session node (at least) exists and must be seen
    const long nodesBefore = CountUnder(pre, L->root, true);
    if (!bad) { if (nodesBefore < 1) Abort("trace oracle self-test: the leaver's session node is not visible before the cut"); if (doStats) vh::stat("selftest_trace_oracle_fired"); }
@@ -313,7 +314,7 @@ static bool RunCut(const StreamSpec & S, size_t cut, int closeStyle, const std::
    B.Settle();
 
    // ---- oracle at the quiescent point
-   TreeSnap s1; B.insp->Snapshot(s1);
+   TreeSnap s1; if (!B.insp->Snapshot(s1)) { CUTFAIL("inspector_detached", "the inspector session was detached when the leaver departed"); return false; }
    if (B.SessionAttached(L->id)) CUTFAIL("session_not_removed", "the session of the closed connection is still attached");
    { long n = CountUnder(s1, L->root, true); if (n) CUTFAIL("nodes_remain", vh::fmt("%ld node(s) of the departed session %s remain", n, L->root.c_str())); }
    { long m = MarksOf(s1, L->id); if (m) { std::string where; for (TreeSnap::const_iterator it = s1.begin(); it != s1.end(); ++it) if (it->second.subs.count(L->id)) { where = it->first + ShowSubs(it->second.subs); break; } CUTFAIL("subscriber_marks_remain", vh::fmt("%ld subscriber reference(s) of departed session %u remain, e.g. on ", m, L->id) + where); } }
